@@ -1,8 +1,11 @@
 #!/usr/bin/env bash
 # Re-evaluates every stored seeded change against the current machinery and tree (regression of the catalogue).
+# seeded_all.sh [k n]: only the changes whose position in the list is k modulo n (for running n shards side by side).
 cd "$(dirname "$0")"
+k="${1:-0}"; n="${2:-1}"; i=0
 for d in seeded/*/; do
-  n="$(basename "$d")"
+  i=$((i+1)); [ $((i % n)) -eq "$k" ] || continue
+  name="$(basename "$d")"
   props="$(python3 -c "import json;m=json.load(open('$d/meta.json'));print(' '.join(sorted(set(c['check'].split()[0] for c in m['checks']),key=lambda p:(p!=m['property'],p))))")"
-  ./seeded_eval.sh "$n" $props 2>&1 | sed "s/^/[$n] /"
+  ./seeded_eval.sh "$name" $props 2>&1 | sed "s/^/[$name] /"
 done
